@@ -133,6 +133,13 @@ def ceval(t: Term, mods):
             return ("mod", m, k % m)
         if op == "%" and isinstance(b, int) and isinstance(a, tuple) and a[1] and b > 0 and a[1] % b == 0:
             return a[2] % b
+        # x & (2^k - 1) is x % 2^k; x >> k / x << k are // and * by 2^k
+        if op == "&" and isinstance(b, int) and b > 0 and (b & (b + 1)) == 0 and isinstance(a, tuple) and a[1] and a[1] % (b + 1) == 0:
+            return a[2] % (b + 1)
+        if op == "&" and isinstance(a, int) and a > 0 and (a & (a + 1)) == 0 and isinstance(b, tuple) and b[1] and b[1] % (a + 1) == 0:
+            return b[2] % (a + 1)
+        if op == "<<" and isinstance(a, tuple) and isinstance(b, int) and a[1] and 0 <= b < 32:
+            return ("mod", a[1], (a[2] << b) % a[1])
         if op == "*" and isinstance(a, tuple) and isinstance(b, int) and a[1]:
             return ("mod", a[1], (a[2] * b) % a[1])
         if op == "*" and isinstance(b, tuple) and isinstance(a, int) and b[1]:
